@@ -55,7 +55,11 @@ class F(State):  # unusual but legal: instances are falsy (truthiness must never
         return 0
 
 
-FAMILY: dict[str, type] = {"A": A, "B": B, "R": R, "A2": A2, "G[int]": G[int], "G[str]": G[str], "G": G, "F": F}
+class U(State):  # required attribute of a union type: its validation failure is reported as an exception GROUP
+    v: int | str
+
+
+FAMILY: dict[str, type] = {"A": A, "B": B, "R": R, "A2": A2, "G[int]": G[int], "G[str]": G[str], "G": G, "F": F, "U": U}
 DEFAULTABLE = {"A", "B", "A2", "F"}  # constructible without arguments
 
 
@@ -129,24 +133,38 @@ class LogErr(Exception):
     pass
 
 
-def render_log(segments, token):
+def render_log(segments, token, mapping=False):
     """segments: [["lit", text] | ["s", value] | ["d", int] | ["r", value]] -> (format string, args); format and
-    arguments agree by construction; the token makes the line findable among the library's own lines"""
+    arguments agree by construction; the token makes the line findable among the library's own lines. With
+    mapping=True the arguments are given in logging's other %-style: named keys and ONE mapping argument."""
     fmt, args = [token], []
+    named = {}
     has_args = any(kind != "lit" for kind, _ in segments)  # logging applies % only when arguments are given
     for kind, val in segments:
         if kind == "lit":
             fmt.append(str(val).replace("%", "%%") if has_args else str(val))
-        elif kind == "s":
-            fmt.append("%s")
-            args.append(val)
-        elif kind == "d":
-            fmt.append("%d")
-            args.append(int(val))
+            continue
+        conv = {"s": "s", "d": "d"}.get(kind, "r")
+        val = int(val) if kind == "d" else val
+        if mapping:
+            key = f"a{len(named)}"
+            named[key] = val
+            fmt.append(f"%({key}){conv}")
         else:
-            fmt.append("%r")
+            fmt.append("%" + conv)
             args.append(val)
+    if mapping and named:
+        return " ".join(fmt), (named,)
     return " ".join(fmt), tuple(args)
+
+
+def log_text(fmt, args):
+    """what logging makes of (format, args): a single non-empty mapping argument is used as the mapping"""
+    if not args:
+        return fmt
+    if len(args) == 1 and isinstance(args[0], dict) and args[0]:
+        return fmt % args[0]
+    return fmt % args
 
 
 class Capture(logging.Handler):
@@ -456,7 +474,7 @@ class Run:
 
     def do_log(self, op, path, mscope):
         token = f"tok{len(self.records) + len(self.log)}x"
-        fmt, args = render_log(op["fmt"], token)
+        fmt, args = render_log(op["fmt"], token, mapping=bool(op.get("mapping")))
         exc = LogErr(token) if op.get("exc") else None
         raised = None
         try:
@@ -614,7 +632,7 @@ def execute(prog, inject_at=None, releases=(), run_cls=Run, after=None):
 def sv_strategy():
     from hypothesis import strategies as st
 
-    names = ["A", "A", "B", "R", "A2", "G[int]", "G[str]", "G", "F"]
+    names = ["A", "A", "B", "R", "A2", "G[int]", "G[str]", "G", "F", "U"]
     return st.builds(lambda n, v: {"type": n, "v": v}, st.sampled_from(names), st.integers(1, 9))
 
 
